@@ -164,7 +164,7 @@ func main() {
 	ev.GuardFor("C11")
 	r := ev.Start("C11")
 	defer r.FinishOnPanic()
-	u := ev.Pick(r, 4, 5)
+	u := ev.Pick(r, 4, 7)
 	res := seqmc.Explore(r, seqmc.Config{Name: "bimap", New: func() seqmc.Sys {
 		return &h{u: u, b: &maps.Bimap[int, int]{}, model: map[int]int{}}
 	}})
